@@ -136,7 +136,8 @@ var mcMenuTexts = []string{
 var kindMenus = map[string][]string{
 	"file": {"/foo rwk,", "/foo m,", "/srv/b rwk,", "@{bin}/foo mrix,", "/etc/a mrix,", "/foo r,", "/Foo r,", "/foo w,", "/foo rw,", "owner /foo r,", "audit /foo r,", "deny /foo r,", "/foo r, # note", "/foé r,", "/foè r,",
 		"@{bin}/foo r,", "@{bin}/foo rix,", "@{bin}/foo rPx -> t1,", "@{bin}/foo rPx -> t2,", "/srv/a r,", "/srv/b r,", "/etc/a r,", "@{HOME}/a r,", "/a r,", "/z r,",
-		"\"/etc/a\" r,", "\"/srv/a\" r,", "\"/srv/a b\" r,", "/dev/shm/a rw,", "/dev/a rw,", "@{run}/a r,", "/tmp/a r,", "@{lib}/a mr,", "/opt/a r,", "/usr/share/a r,", "/var/a r,"},
+		"\"/etc/a\" r,", "\"/srv/a\" r,", "\"/srv/a b\" r,", "/foo/ w,", "/foo//x r,", "/foo/x w,", "/dev/tty01 rw,", "/dev/tty1 rw,", "/dev/tty001 rw,", "/dev/tty10 rw,", "/dev/tty2 rw,",
+		"/srv/ΛΉΨΕΙΣ/ r,", "/srv/λήψεις/ r,", "/srv/λήψεις/** r,", "/srv/ſ r,", "/srv/s r,", "/srv/S r,", "/srv/µ r,", "/srv/μ r,", "/srv/İ r,", "/srv/i r,", "/dev/shm/a rw,", "/dev/a rw,", "@{run}/a r,", "/tmp/a r,", "@{lib}/a mr,", "/opt/a r,", "/usr/share/a r,", "/var/a r,"},
 	"link":           {"link /a -> /b,", "link /a -> /c,", "link subset /a -> /b,", "owner link /a -> /b,", "deny link /a -> /b,", "link /A -> /b,"},
 	"capability":     {"capability chown,", "capability kill,", "capability chown kill,", "audit capability chown,", "deny capability chown,", "capability,"},
 	"network":        {"network inet stream,", "network inet dgram,", "network inet6 stream,", "network netlink raw,", "deny network inet stream,", "audit network inet stream,", "network inet,"},
